@@ -211,7 +211,15 @@ func (ch c03) framing(c *core.Ctx, env *hs.Env, rng *core.Rng, idx int) {
 	shape := ""
 	for i := 0; i < n; i++ {
 		var m []byte
-		switch k := rng.Intn(11); k {
+		switch k := rng.Intn(12); k {
+		case 11: // an oversized message (any type) while a COPY-in is running: skipped once, in full; the COPY ends with an error
+			q := fmt.Sprintf("fcopy%d.%d.%d", c.Batch, idx, i)
+			progs[q] = &hs.Prog{Stmts: []*hs.Stmt{{ID: "fcopy", Cols: textCols(1), Params: []oid.Oid{}, Ops: []hs.Op{{K: "copy", Copy: &hs.CopyPlan{Format: wire.TextFormat, MaxReads: -1, OnErr: "propagate"}}}}}}
+			m = append(pg.Query(q), pg.CopyData(rng.Bytes(rng.Intn(200)))...)
+			sz := core.Pick(rng, []int{L + 1, L + 2, 2*L - 1, 2 * L, 2*L + 1, L + 100 + rng.Intn(3*L)})
+			m = append(m, pg.Raw(core.Pick(rng, []byte("ddQP~")), rng.Bytes(sz))...)
+			m = append(m, pg.CopyDone()...) // stray by then
+			shape += "K"
 		case 9, 10: // a valid extended-protocol body cut short inside its (correct) frame: short data for the accessors
 			full := core.Pick(rng, [][]byte{
 				pg.Parse(core.Pick(rng, xNames), "short body", []uint32{23, 25, 1043, uint32(rng.Intn(5000))}[:1+rng.Intn(4)]),
@@ -312,7 +320,7 @@ func (ch c03) framing(c *core.Ctx, env *hs.Env, rng *core.Rng, idx int) {
 		}
 		want := fmt.Sprintf("framing-probe %d.%d.%d", c.Batch, idx, next)
 		if q != want {
-			c.Violate("framing", "a message was not consumed in exactly its declared length: the following probe was lost, duplicated or reordered", fmt.Sprintf("shape %s (one symbol per message; O oversized, U unknown type, s Sync/Flush+surplus, c stray COPY, P Parse+types, t body cut short, e failing extended, 0 empty, Q Query+surplus, C Close+surplus): parser saw %q, expected %q", shape, q, want), cs)
+			c.Violate("framing", "a message was not consumed in exactly its declared length: the following probe was lost, duplicated or reordered", fmt.Sprintf("shape %s (one symbol per message; O oversized, U unknown type, s Sync/Flush+surplus, c stray COPY, P Parse+types, t body cut short, K oversized message during COPY-in, e failing extended, 0 empty, Q Query+surplus, C Close+surplus): parser saw %q, expected %q", shape, q, want), cs)
 			return
 		}
 		next++
